@@ -7,6 +7,7 @@ from canon import coq_fs, coq_str, coq_z, coq_opt, coq_cells, coq_res
 ID = "C09"
 LEVEL = "proof"
 PROPS_FILE = "Props/C09.v"
+EXTRA_PROPS = ("Props/C09Tie.v",)
 CORR_VO = "Corr/C09.vo"
 REQUIRE = "From Curtsies Require Import Model.Base Model.Slice Model.Splice Corr.C09."
 CASE_TYPE = "C09.case"
@@ -24,7 +25,12 @@ RULE = ("small scope: every run layout with <= 3 runs of 0..3 characters and eve
         "observation: per-character (char, attributes) list of the result, exception class; the operand is re-read "
         "after the call and must be unchanged. non-trivial = the FmtStr and the replacement are not both empty; "
         "distinct = distinct input")
+GENERATORS = ("gen/gen_pure.py",)
+PURE_HELPERS = ('FmtStr_divides',)
 TRUSTED = [
+    "translator gen/gen_pure.py (dumps the Python AST of the getter of FmtStr.divides node by node into coq/Gen/PureFmt.v) and the "
+    "reference semantics of that Python subset coq/Spec/PyMini.v, itself run against CPython on enumerated FmtStrs in every check "
+    "(tie theorem C09_divides_is_the_repository_property)",
     "Coq 8.16.1 kernel incl. vm_compute (no native_compute); Print Assumptions: closed under the global context",
     "reference list semantics coq/Spec/ListOps.v (list_splice = firstn s l ++ x ++ skipn e l, setslice_ref)",
     "harness canonicaliser harness/canon.py (FmtStr runs -> cells -> Coq literal) and the parser of coqc's answer",
